@@ -128,7 +128,7 @@ reg("C43", "differential runtime monitor against analytic inclusion predicates",
 
 
 # ids whose check has been validated on the unchanged tree (quick tier silent, evidence valid)
-READY = {f"C{i:02d}" for i in range(1, 44)} - {"C17", "C33", "C36"}
+READY = {f"C{i:02d}" for i in range(1, 44)}
 
 
 def build_manifest():
